@@ -600,6 +600,36 @@ class Facts:
             cache[key] = f
             return f
         nf = Fn(d, f.crate)
+        # a spliced helper that calls through a function pointer its caller passed as a named function (`Cmr::injl`) calls
+        # that function: make the call direct, so that call-site rules see it
+        Tn = Terms(nf)
+        fixed = False
+        for blk in d["blocks"]:
+            t = blk["t"]
+            if t["k"] != "call":
+                continue
+            via = None
+            if "path" not in t["f"] and isinstance(t["f"].get("indirect"), dict):
+                via, new_args = t["f"]["indirect"], t["args"]                      # fn pointer
+            elif t["f"].get("name") in ("call_once", "call_mut", "call") and (t["f"].get("trait") or t["f"].get("path", "")).startswith(
+                    ("std::ops::Fn", "core::ops::Fn")) and len(t["args"]) == 2 and t["args"][1].get("k") in ("move", "copy"):
+                tup = Tn.operand(t["args"][1])                                       # `impl FnOnce(..)` parameter
+                if isinstance(tup, tuple) and tup and tup[0] == "tuple":
+                    via = t["args"][0]
+                    pl = t["args"][1]["p"]
+                    new_args = [{"k": "copy", "p": [pl[0], list(pl[1]) + [".%d" % i_]] + list(pl[2:])} for i_ in range(len(tup[1]))]
+            if via is None:
+                continue
+            tgt = Tn.operand(via)
+            if isinstance(tgt, tuple) and tgt and tgt[0] == "fnitem" and isinstance(tgt[1], str):
+                fd = dict(FNITEMS.get(tgt[1]) or {"path": tgt[1], "full": tgt[1], "name": tgt[1].rsplit("::", 1)[-1],
+                                                    "local": tgt[1].startswith("simplicity"), "res_kind": "item", "resolved": True})
+                fd["via_pointer"] = True
+                t["f"] = fd
+                t["args"] = new_args
+                fixed = True
+        if fixed:
+            nf = Fn(d, f.crate)
         nf.inlined_from = f
         nf.lowered_closures = tuple(d.get("lowered_closures") or ())
         nf.inlined_helpers = tuple(d.get("inlined_helpers") or ())
@@ -915,6 +945,7 @@ class Terms:
         self.opaque = opaque or {}
         # calls whose result identity matters (allocators of fresh objects): tagged with their call site
         self.site_names = set()
+        self.fnitems = {}          # path -> callee description of every function item seen as a value
         self._term_bb = {}
         for _b, _blk in enumerate(fn.blocks):
             self._term_bb[id(_blk["t"])] = _b
@@ -1020,6 +1051,13 @@ class Terms:
     def call(self, t, depth, stack):
         f = t["f"]
         if "path" not in f:
+            # a call through a function pointer whose value is a known function item (a helper handed `Cmr::injl`, spliced
+            # into its caller by Facts.inlined) is a call of that function
+            tgt = self.operand(f["indirect"], depth, stack) if isinstance(f.get("indirect"), dict) else None
+            while isinstance(tgt, tuple) and tgt and tgt[0] == "cast" and len(tgt) > 1 and isinstance(tgt[1], tuple):
+                tgt = tgt[1]
+            if isinstance(tgt, tuple) and tgt and tgt[0] == "fnitem" and isinstance(tgt[1], str):
+                return ("call", tgt[1], tgt[1].rsplit("::", 1)[-1], tuple(self.operand(a, depth, stack) for a in t["args"]), None, None)
             return ("icall", tuple(self.operand(a, depth, stack) for a in t["args"]))
         name = f.get("name")
         args = t["args"]
@@ -1057,8 +1095,12 @@ def _has_loop(t):
     return any(_has_loop(x) for x in t if isinstance(x, tuple))
 
 
+FNITEMS = {}     # path -> callee description of every function item seen as a value
+
+
 def const_term(op):
     if "fn" in op:
+        FNITEMS[op["fn"].get("res") or op["fn"].get("path")] = op["fn"]
         return ("fnitem", op["fn"].get("res") or op["fn"].get("path"))
     if "variant" in op and "enum" in op:
         return ("enumconst", op["enum"], op["variant"])
@@ -1139,6 +1181,8 @@ def project1(t, p):
         if t[0] == "phi":
             return ("phi", tuple(project1(a, p) for a in t[1]))
         return ("field", t, name)
+    if t[0] == "array" and p.startswith("[") and p[1:-1].isdigit() and int(p[1:-1]) < len(t[1]):
+        return t[1][int(p[1:-1])]          # constant index into an array literal
     return ("index", t, p)
 
 
